@@ -17,6 +17,7 @@ import PenneModel.Flat.Header
 import PenneModel.Flat.Parser
 import PenneModel.Syn.Parse
 import PenneModel.Syn.Print
+import PenneModel.Flat.Layout
 /-
   Model driver: one request per line on stdin (`OP<TAB>payload`), one answer per line on stdout.
   Only model files are imported (no Mathlib, no proof files), so this links as a native executable.
@@ -222,7 +223,7 @@ def handle (op payload : String) : String :=
       let r := Flat.parseAll ts
       let errs := r.errors.map (fun (e, pos) => s!"{(reprStr e).replace "Flat.PErr." ""}@{pos}")
       s!"nodes={r.nodes.length} decls={r.decls} assert={r.assertFailed} fuel={r.outOfFuel} errors={",".intercalate errs} tags={",".intercalate (r.nodes.map Flat.Tag.name)}"
-  | "synparse" | "synprint" =>
+  | "synparse" | "synprint" | "synlayout" =>
     -- tokens `Kind:hex(text):value:type` separated by spaces -> canonical tree / the rebuilder's tokens of that tree
     match (payload.splitOn " ").mapM synTokOf with
     | none => "bad-token"
@@ -231,6 +232,9 @@ def handle (op payload : String) : String :=
       | none => "reject"
       | some ds =>
         if op == "synparse" then "ok " ++ Syn.showModule ds
+        else if op == "synlayout" then
+          let r := Layout.encModuleR ds
+          "ok " ++ ",".intercalate (r.1.map Layout.showFN) ++ " " ++ ",".intercalate (r.2.map toString)
         else "ok " ++ " ".intercalate ((Syn.printModule ds).map Syn.showTok)
   | "header" =>
     match Sexp.parse payload with
